@@ -181,6 +181,7 @@ type FuncSpec struct {
 	HasAssigns bool
 	Safety     []string // property tags that own the zero-annotation safety obligations of this body
 	Inline     bool
+	NoMerge    bool // do not merge if-diamonds in this function (keeps literal-length slices literal so loops unroll)
 	Trusted    bool
 	Loops      map[int]*LoopSpec
 	Iters      map[int]*LoopSpec
@@ -395,7 +396,7 @@ func (l *lexer) here() SPos { return SPos{l.file, l.peek().line} }
 
 var clauseKeywords = map[string]bool{"requires": true, "ensures": true, "assigns": true, "safety": true, "inline": true,
 	"trusted": true, "loop": true, "iter": true, "invariant": true, "panics": true, "frame": true, "pure": true,
-	"ghost": true, "func": true, "axiom": true, "unroll": true, "fresh": true, "note": true, "external": true, "visit": true, "iterator": true, "exit": true, "guarded": true}
+	"ghost": true, "func": true, "axiom": true, "unroll": true, "fresh": true, "note": true, "external": true, "visit": true, "iterator": true, "exit": true, "guarded": true, "nomerge": true}
 
 type eparser struct {
 	l *lexer
@@ -1172,6 +1173,9 @@ func parseSpecLines(path string, lines []string, lineNos []int) (*SpecFile, erro
 		case "inline":
 			lx.next()
 			cur.Inline = true
+		case "nomerge":
+			lx.next()
+			cur.NoMerge = true
 		case "trusted":
 			lx.next()
 			sf.Tokens["trusted"]++
